@@ -47,6 +47,8 @@ enum Fate {
     Fail(usize),
     Kill(usize),
     Cancel(usize),
+    /// the writer succeeds; its rename is made to fail from outside (strace error injection)
+    RFail,
 }
 
 impl Fate {
@@ -57,6 +59,7 @@ impl Fate {
             "fail" => Fate::Fail(k),
             "kill" => Fate::Kill(k),
             "cancel" => Fate::Cancel(k),
+            "rfail" => Fate::RFail,
             _ => Fate::Ok,
         }
     }
@@ -66,6 +69,7 @@ impl Fate {
             Fate::Fail(k) => format!("fail@{k}"),
             Fate::Kill(k) => format!("kill@{k}"),
             Fate::Cancel(k) => format!("cancel@{k}"),
+            Fate::RFail => "rfail".into(),
         }
     }
 }
@@ -124,7 +128,14 @@ enum Class {
     Bad,
 }
 
+/// set while a round runs in which some writer's payload is empty (`sizes` contains 0): only then is an empty file
+/// at the final path one writer's complete payload
+static EMPTY_OK: AtomicBool = AtomicBool::new(false);
+
 fn classify(bytes: &[u8], seed: u64) -> Class {
+    if bytes.is_empty() && EMPTY_OK.load(Ordering::SeqCst) {
+        return Class::Complete(u64::MAX);
+    }
     let Some(nl) = bytes.iter().position(|&b| b == b'\n') else { return Class::Bad };
     let Ok(head) = std::str::from_utf8(&bytes[..nl]) else { return Class::Bad };
     let w: Vec<&str> = head.split(' ').collect();
@@ -332,18 +343,24 @@ fn list(s: &str) -> Vec<&str> {
     }
 }
 
-fn flock_threads_of(pid: u32) -> usize {
-    let mut n = 0;
+fn flock_tids_of(pid: u32) -> Vec<u32> {
+    let mut v = Vec::new();
     if let Ok(rd) = std::fs::read_dir(format!("/proc/{pid}/task")) {
         for e in rd.flatten() {
             if let Ok(comm) = std::fs::read_to_string(e.path().join("comm")) {
                 if comm.trim() == "flock" {
-                    n += 1;
+                    if let Some(t) = e.file_name().to_str().and_then(|t| t.parse().ok()) {
+                        v.push(t);
+                    }
                 }
             }
         }
     }
-    n
+    v
+}
+
+fn flock_threads_of(pid: u32) -> usize {
+    flock_tids_of(pid).len()
 }
 
 static DIR_COUNTER: AtomicU64 = AtomicU64::new(0);
@@ -409,6 +426,8 @@ struct ShT {
     cfg: RoundCfg,
     ctl: Mutex<Ctl>,
     gate: tokio::sync::Notify,
+    /// creators with an index >= this one suspend inside `handle_existing_fn` and get their future dropped there
+    ce_from: usize,
 }
 
 async fn write_cb_threads(sh: Arc<ShT>, c: usize, mut file: std::fs::File) -> Result<Made, CbErr> {
@@ -464,6 +483,11 @@ async fn creator_threads(sh: Arc<ShT>, c: usize) -> Outcome {
             if !matches!(read_class(&sh3.cfg.dest, sh3.cfg.seed), Class::Complete(_)) {
                 sh3.ctl.lock().unwrap().seen_bad += 1;
             }
+            if c >= sh3.ce_from {
+                // await point :126: ask the controller to drop this future; never resumes
+                sh3.ctl.lock().unwrap().abort_wanted.push(c);
+                std::future::pending::<()>().await;
+            }
             Ok::<Made, CbErr>(Made::Existing)
         },
     )
@@ -484,9 +508,9 @@ async fn creator_threads(sh: Arc<ShT>, c: usize) -> Outcome {
     o
 }
 
-fn run_round_threads(cfg: RoundCfg, n: usize, late: usize, cw: usize, stats: &mut Stats) -> (Vec<Outcome>, Ctl) {
+fn run_round_threads(cfg: RoundCfg, n: usize, late: usize, cw: usize, ce: usize, stats: &mut Stats) -> (Vec<Outcome>, Ctl) {
     let rt = tokio::runtime::Builder::new_multi_thread().worker_threads(4).enable_all().build().unwrap();
-    let sh = Arc::new(ShT { cfg, ctl: Mutex::new(Ctl::default()), gate: tokio::sync::Notify::new() });
+    let sh = Arc::new(ShT { cfg, ctl: Mutex::new(Ctl::default()), gate: tokio::sync::Notify::new(), ce_from: n + cw });
     let total = n + cw;
     let early = n - late;
     let outcomes = rt.block_on(async {
@@ -588,6 +612,39 @@ fn run_round_threads(cfg: RoundCfg, n: usize, late: usize, cw: usize, stats: &mu
         while flock_threads_of(std::process::id()) > 0 && t3.elapsed() < Duration::from_secs(5) {
             tokio::time::sleep(tick).await;
         }
+        // `ce` more creators, one after the other: each finds the destination (if somebody created it), suspends in
+        // its existing-file handler and gets its future dropped there; if nobody created it, it creates it
+        for c in total..total + ce {
+            let mut hs = vec![Some(tokio::spawn(creator_threads(sh.clone(), c)))];
+            let mut rs = vec![None];
+            let t4 = Instant::now();
+            loop {
+                // abort_wanted holds global creator indices; this loop owns exactly creator c
+                let wanted: Vec<usize> = std::mem::take(&mut sh.ctl.lock().unwrap().abort_wanted);
+                if wanted.contains(&c) {
+                    if let Some(h) = hs[0].take() {
+                        h.abort();
+                        rs[0] = Some(match h.await {
+                            Ok(o) => o,
+                            Err(_) => Outcome::Cancelled,
+                        });
+                    }
+                    break;
+                }
+                if hs[0].as_ref().map(|h| h.is_finished()).unwrap_or(true) || t4.elapsed() > Duration::from_secs(20) {
+                    break;
+                }
+                tokio::time::sleep(tick).await;
+            }
+            if let Some(h) = hs[0].take() {
+                rs[0] = Some(match tokio::time::timeout(Duration::from_secs(5), h).await {
+                    Ok(Ok(o)) => o,
+                    Ok(Err(_)) => Outcome::Cancelled,
+                    Err(_) => Outcome::Err("stuck".into()),
+                });
+            }
+            results.push(rs.pop().unwrap());
+        }
         results.into_iter().map(|o| o.unwrap_or(Outcome::Err("lost".into()))).collect::<Vec<_>>()
     });
     rt.shutdown_timeout(Duration::from_secs(2));
@@ -624,7 +681,21 @@ fn solo_in_process(dest: &Path, seed: u64, id: u64, chunks: usize) -> Outcome {
 // process mode: creators are re-exec'd children of this binary
 
 /// `--c16-child <dest> <seed> <id> arrive` | `… solo:<chunks>:<fate>`
+extern "C" fn noop_handler(_: libc::c_int) {}
+
 fn child_main(args: &[String]) -> ! {
+    if std::env::var("C16_EMPTY_OK").is_ok() {
+        EMPTY_OK.store(true, Ordering::SeqCst);
+    }
+    // SIGUSR1 without SA_RESTART: a signal sent to a thread that is blocked in flock(2) makes the call return
+    // EINTR (the retry loops of file_creation.rs:189-200 / :233-244)
+    unsafe {
+        let mut sa: libc::sigaction = std::mem::zeroed();
+        sa.sa_sigaction = noop_handler as *const () as usize;
+        sa.sa_flags = 0;
+        libc::sigemptyset(&mut sa.sa_mask);
+        libc::sigaction(libc::SIGUSR1, &sa, std::ptr::null_mut());
+    }
     let dest = PathBuf::from(&args[0]);
     let seed: u64 = args[1].parse().unwrap();
     let id: u64 = args[2].parse().unwrap();
@@ -756,6 +827,9 @@ fn spawn_kid(sh: &Arc<ShP>, c: usize, id: u64, mode: &str, strace: Option<Vec<St
         }
         None => Command::new(&exe),
     };
+    if EMPTY_OK.load(Ordering::SeqCst) {
+        cmd.env("C16_EMPTY_OK", "1");
+    }
     cmd.arg("--c16-child")
         .arg(&sh.cfg.dest)
         .arg(sh.cfg.seed.to_string())
@@ -841,6 +915,9 @@ fn run_round_procs(
     cfg: RoundCfg,
     n: usize,
     late: usize,
+    cw: usize,
+    sig: usize,
+    sigx: usize,
     pre: Option<(String, usize, usize)>,
     lead: Option<(String, usize)>,
     stats: &mut Stats,
@@ -863,12 +940,18 @@ fn run_round_procs(
         *ctl = Ctl { cb_obs_bad: ctl.cb_obs_bad, seen_bad: ctl.seen_bad, ..Ctl::default() };
     }
     let early = n - late;
-    let mut kids: Vec<Option<Kid>> = (0..n).map(|_| None).collect();
+    // kids n..n+cw are waiters that get SIGKILLed while they are blocked in flock
+    let mut kids: Vec<Option<Kid>> = (0..n + cw).map(|_| None).collect();
     let mut first = 0;
     if let Some((point, usec)) = &lead {
         // creator 0 runs under strace with a delay at the chosen system call; it starts alone and the others
         // start once it is inside its write callback
-        let inj = strace_inject(&sh.cfg.dest, point, &format!("delay_enter={usec}"));
+        let inj = if point == "renamefail" {
+            // the rename of creator 0 fails (the system call is not executed): RenameError after a good write
+            strace_inject(&sh.cfg.dest, "rename", "error=EIO")
+        } else {
+            strace_inject(&sh.cfg.dest, point, &format!("delay_enter={usec}"))
+        };
         kids[0] = Some(spawn_kid(&sh, 0, 0, "arrive", inj));
         first = 1;
         let t = Instant::now();
@@ -887,7 +970,7 @@ fn run_round_procs(
     let readers_done = |kids: &Vec<Option<Kid>>| -> usize {
         kids.iter().flatten().filter(|k| k.reader.as_ref().map(|r| r.is_finished()).unwrap_or(true)).count()
     };
-    if late > 0 {
+    if late + cw > 0 {
         let t0 = Instant::now();
         loop {
             let gate = sh.ctl.lock().unwrap().gate_reached;
@@ -915,6 +998,51 @@ fn run_round_procs(
                 break;
             }
             std::thread::sleep(tick);
+        }
+        // signals (no SA_RESTART) to every thread that is blocked in flock: the call returns EINTR and is retried
+        for round in 0..sig {
+            for k in kids.iter().flatten() {
+                let pid = k.child.id();
+                for tid in flock_tids_of(pid) {
+                    unsafe {
+                        libc::syscall(libc::SYS_tgkill, pid as libc::c_long, tid as libc::c_long, libc::SIGUSR1 as libc::c_long);
+                    }
+                    stats.bump("eintr_signals_sent");
+                }
+            }
+            std::thread::sleep(Duration::from_millis(if round + 1 < sig { 4 } else { 8 }));
+        }
+        // the last `sigx` late creators are signalled until their flock thread has been interrupted five times and
+        // gives up ("File locking was interrupted too many times", file_creation.rs:233-244): err:locking
+        for c in (early..n).rev().take(sigx) {
+            if let Some(k) = &kids[c] {
+                let pid = k.child.id();
+                let t = Instant::now();
+                while t.elapsed() < Duration::from_secs(5) && !k.reader.as_ref().map(|r| r.is_finished()).unwrap_or(true) {
+                    for tid in flock_tids_of(pid) {
+                        unsafe {
+                            libc::syscall(libc::SYS_tgkill, pid as libc::c_long, tid as libc::c_long, libc::SIGUSR1 as libc::c_long);
+                        }
+                        stats.bump("eintr_signals_sent");
+                    }
+                    std::thread::sleep(Duration::from_millis(2));
+                }
+            }
+        }
+        // the `cw` waiters are killed while they are blocked in flock
+        for k in kids.iter().skip(n).flatten() {
+            unsafe {
+                libc::kill(k.child.id() as i32, libc::SIGKILL);
+            }
+        }
+        if cw > 0 {
+            // their readers see EOF; only then may the lock holder go on (a killed waiter must not be granted the lock)
+            let t2 = Instant::now();
+            while t2.elapsed() < Duration::from_secs(5)
+                && !kids.iter().skip(n).flatten().all(|k| k.reader.as_ref().map(|r| r.is_finished()).unwrap_or(true))
+            {
+                std::thread::sleep(tick);
+            }
         }
         let gate_child = sh.ctl.lock().unwrap().gate_child;
         if let Some(g) = gate_child {
@@ -950,6 +1078,9 @@ fn solo_child(dest: &Path, seed: u64, id: u64, chunks: usize, fate: &str, trace_
         }
         None => Command::new(&exe),
     };
+    if EMPTY_OK.load(Ordering::SeqCst) {
+        cmd.env("C16_EMPTY_OK", "1");
+    }
     cmd.arg("--c16-child")
         .arg(dest)
         .arg(seed.to_string())
@@ -993,14 +1124,22 @@ fn run_round(ws: &[&str], stats: &mut Stats) -> Vec<String> {
     let mode = kv(ws, "mode").unwrap_or("threads");
     let n = kv_num(ws, "n", 2);
     let late = kv_num(ws, "late", 0).min(n.saturating_sub(1));
-    let cw = if mode == "threads" { kv_num(ws, "cw", 0) } else { 0 };
+    let cw = kv_num(ws, "cw", 0);
+    let sig = if mode == "procs" { kv_num(ws, "sig", 0).min(3) } else { 0 };
+    let sigx = if mode == "procs" { kv_num(ws, "sigx", 0).min(late) } else { 0 };
+    let ce = if mode == "threads" { kv_num(ws, "ce", 0) } else { 0 };
     let fates: Vec<Fate> = list(kv(ws, "fates").unwrap_or("-")).into_iter().map(Fate::parse).collect();
     let sizes: Vec<usize> = list(kv(ws, "sizes").unwrap_or("-")).into_iter().filter_map(|s| s.parse().ok()).collect();
     let seed = kv_num(ws, "seed", 1) as u64;
+    let wants_rfail = kv(ws, "lead").map(|l| l.starts_with("renamefail:")).unwrap_or(false);
+    if fates.iter().enumerate().any(|(i, f)| (*f == Fate::RFail) != (wants_rfail && i == 0)) || (wants_rfail && (fates.is_empty() || mode != "procs")) {
+        return vec!["bad-op".into()];
+    }
     let dir = work_dir();
     let dest = dir.join("cache.bin");
     let first_ok = fates.iter().take_while(|f| **f != Fate::Ok).count();
     let gate_idx = if late + cw > 0 { Some(first_ok) } else { None };
+    EMPTY_OK.store(sizes.contains(&0), Ordering::SeqCst);
     let cfg = RoundCfg { seed, dest: dest.clone(), fates: fates.clone(), sizes, gate_idx };
     let mut out = Vec::new();
     let observer = Observer::start(dest.clone(), move |p| read_class(p, seed));
@@ -1013,9 +1152,9 @@ fn run_round(ws: &[&str], stats: &mut Stats) -> Vec<String> {
             let (point, usec) = p.split_once(':')?;
             Some((point.to_string(), usec.parse().ok()?))
         });
-        run_round_procs(cfg, n, late, pre, lead, stats)
+        run_round_procs(cfg, n, late, cw, sig, sigx, pre, lead, stats)
     } else {
-        let (o, c) = run_round_threads(cfg, n, late, cw, stats);
+        let (o, c) = run_round_threads(cfg, n, late, cw, ce, stats);
         (None, o, c)
     };
     let fin = final_line(&dest, seed);
@@ -1032,12 +1171,13 @@ fn run_round(ws: &[&str], stats: &mut Stats) -> Vec<String> {
     }
     let count = |p: &dyn Fn(&Outcome) -> bool| outcomes.iter().filter(|o| p(o)).count();
     out.push(format!(
-        "outcomes created={} existing={} err={} killed={} cancelled={}",
+        "outcomes created={} existing={} err={} killed={} cancelled={} err_rename={}",
         count(&|o| *o == Outcome::Created),
         count(&|o| *o == Outcome::Existing),
         count(&|o| matches!(o, Outcome::Err(_))),
         count(&|o| *o == Outcome::Killed),
-        count(&|o| *o == Outcome::Cancelled)
+        count(&|o| *o == Outcome::Cancelled),
+        count(&|o| *o == Outcome::Err("rename".into()))
     ));
     out.push(format!("writes_ok={}", ctl.writes_ok));
     out.push(format!("max_active={}", ctl.max_active()));
@@ -1060,12 +1200,26 @@ fn run_round(ws: &[&str], stats: &mut Stats) -> Vec<String> {
         stats.bump("rounds_with_late_creators");
     }
     if cw > 0 {
-        stats.bump("rounds_with_cancelled_waiters");
+        stats.bump(if mode == "procs" { "rounds_with_killed_waiters" } else { "rounds_with_cancelled_waiters" });
+    }
+    if sig > 0 {
+        stats.bump("rounds_with_eintr_signals");
+    }
+    if sigx > 0 {
+        stats.bump("rounds_with_eintr_exhaustion");
+    }
+    if ce > 0 {
+        stats.bump("rounds_with_cancel_in_existing_handler");
+    }
+    if EMPTY_OK.swap(false, Ordering::SeqCst) {
+        stats.bump("rounds_with_empty_payload");
     }
     if let Some(p) = kv(ws, "pre").filter(|p| *p != "-") {
         stats.bump(&format!("pre_kill_{}", p.split('x').next().unwrap().trim_end_matches(char::is_numeric)));
     }
-    if kv(ws, "lead").filter(|p| *p != "-").is_some() {
+    if wants_rfail {
+        stats.bump("rounds_with_rename_failure");
+    } else if kv(ws, "lead").filter(|p| *p != "-").is_some() {
         stats.bump("rounds_with_delay_injection");
     }
     let _ = std::fs::remove_dir_all(&dir);
@@ -1238,7 +1392,7 @@ fn run_trace(ws: &[&str], stats: &mut Stats) -> Vec<String> {
         // somebody else (a real creator in this process) is parked inside its write callback and holds the lock
         let other_fate = if scenario == "blocked_existing" { Fate::Ok } else { Fate::Fail(1) };
         let cfg = RoundCfg { seed, dest: dest.clone(), fates: vec![other_fate], sizes: vec![chunks], gate_idx: Some(0) };
-        let sh = Arc::new(ShT { cfg, ctl: Mutex::new(Ctl::default()), gate: tokio::sync::Notify::new() });
+        let sh = Arc::new(ShT { cfg, ctl: Mutex::new(Ctl::default()), gate: tokio::sync::Notify::new(), ce_from: usize::MAX });
         let rt = tokio::runtime::Builder::new_multi_thread().worker_threads(2).enable_all().build().unwrap();
         let h = rt.spawn(creator_threads(sh.clone(), 0));
         let t = Instant::now();
@@ -1442,6 +1596,10 @@ struct SymServer {
     port: u16,
     stop: Arc<AtomicBool>,
     abort: Arc<Mutex<Option<usize>>>,
+    /// while set, the second piece of the body is held back (the connection stays open)
+    hold: Arc<AtomicBool>,
+    /// another body to serve instead of the one given at start ("the file on the server was replaced")
+    body_override: Arc<Mutex<Option<Arc<Vec<u8>>>>>,
     handle: Option<std::thread::JoinHandle<()>>,
 }
 
@@ -1453,7 +1611,9 @@ impl SymServer {
         listener.set_nonblocking(true).ok()?;
         let stop = Arc::new(AtomicBool::new(false));
         let abort = Arc::new(Mutex::new(None::<usize>));
-        let (stop2, abort2) = (stop.clone(), abort.clone());
+        let hold = Arc::new(AtomicBool::new(false));
+        let body_override = Arc::new(Mutex::new(None::<Arc<Vec<u8>>>));
+        let (stop2, abort2, hold2, over2) = (stop.clone(), abort.clone(), hold.clone(), body_override.clone());
         let handle = std::thread::spawn(move || {
             while !stop2.load(Ordering::SeqCst) {
                 let Ok((mut conn, _)) = listener.accept() else {
@@ -1476,6 +1636,8 @@ impl SymServer {
                     let _ = conn.write_all(b"HTTP/1.1 404 Not Found\r\nContent-Length: 0\r\nConnection: close\r\n\r\n");
                     continue;
                 }
+                let body: Arc<Vec<u8>> = over2.lock().unwrap().clone().unwrap_or_else(|| body.clone());
+                let tail = tail.min(body.len());
                 let head = format!("HTTP/1.1 200 OK\r\nContent-Type: text/plain\r\nContent-Length: {}\r\nConnection: close\r\n\r\n", body.len());
                 let _ = conn.write_all(head.as_bytes());
                 let cut = body.len().saturating_sub(tail);
@@ -1495,13 +1657,17 @@ impl SymServer {
                         let _ = conn.write_all(&body[..cut]);
                         let _ = conn.flush();
                         std::thread::sleep(Duration::from_millis(30));
+                        let t = Instant::now();
+                        while hold2.load(Ordering::SeqCst) && !stop2.load(Ordering::SeqCst) && t.elapsed() < Duration::from_secs(40) {
+                            std::thread::sleep(Duration::from_millis(2));
+                        }
                         let _ = conn.write_all(&body[cut..]);
                         let _ = conn.flush();
                     }
                 }
             }
         });
-        Some(SymServer { port, stop, abort, handle: Some(handle) })
+        Some(SymServer { port, stop, abort, hold, body_override, handle: Some(handle) })
     }
 }
 
@@ -1713,6 +1879,497 @@ fn symindexfault_line(where_: u64, funcs: usize, seed: u64) -> String {
     format!("symindexfault fsize={fsize} funcs={funcs} isize={isize} seed={seed}")
 }
 
+
+// ---------------------------------------------------------------------------------------------
+// (f) a creator cancelled while a write of its `tokio::fs::File` is in flight
+
+/// two versions of one module's `.sym` (same debug id) and their indexes
+fn two_versions(fa: usize, fb: usize, seed: u64) -> (String, debugid::DebugId, String, Vec<u8>, String, Vec<u8>) {
+    let name = "libverif.so".to_string();
+    let id_hex = format!("{:032X}0", (seed as u128).wrapping_mul(0x9E37_79B9_7F4A_7C15_F39C_C060_5CED_C835) | 1);
+    let debug_id = debugid::DebugId::from_breakpad(&id_hex).expect("debug id");
+    let index_of = |text: &str| {
+        let mut creator = samply_symbols::BreakpadIndexCreator::new();
+        for ch in text.as_bytes().chunks(1000) {
+            creator.consume(ch);
+        }
+        creator.finish().expect("index of generated .sym")
+    };
+    let text_a = sym_file_text(fa, seed, &debug_id.breakpad().to_string(), &name);
+    let text_b = sym_file_text(fb, seed ^ 0x5555, &debug_id.breakpad().to_string(), &name);
+    let (ia, ib) = (index_of(&text_a), index_of(&text_b));
+    (name, debug_id, text_a, ia, text_b, ib)
+}
+
+fn cancelwrite_line(fa: usize, fb: usize, seed: u64) -> String {
+    let (_, _, _, ia, _, ib) = two_versions(fa, fb, seed);
+    format!("cancelwrite site=symindex a={fa} b={fb} isizea={} isizeb={} seed={seed}", ia.len(), ib.len())
+}
+
+/// `--c16-cancelwrite-child <site> <sym dir | server url> <symindex dir | cache dir> <name> <breakpad id> <part path>`:
+/// creator A of the `.symindex` (site `symindex`: `load_symbol_map` -> `ensure_symindex` -> `write_symindex` ->
+/// `create_file_cleanly`) or of a downloaded `.sym` (site `download`: `load_symbol_map` ->
+/// `downloader.rs::download_to_file` -> `create_file_cleanly`) on a runtime whose blocking pool has ONE thread. Dialogue with the parent (lines on stdin / stdout):
+///   STARTED                     A is running (it will block on `dest.lock`, which the parent holds)
+///   < BLOCK, > BLOCKED          the only blocking-pool thread is now occupied: the next `tokio::fs` operation queues
+///   (parent releases the lock: A locks, opens `.part`, `write_all` hands its write to the pool, `flush().await` pends)
+///   > CANCELLED <how> <len>     `.part` was seen, A's future has been dropped; <len> = size of `.part` now
+///   < GO, > DONE                the pool thread is released: the queued write is executed; pool drained
+fn cancelwrite_child_main(args: &[String]) -> ! {
+    let (site, p1, p2, name, id, part) =
+        (args[0].clone(), args[1].clone(), PathBuf::from(&args[2]), args[3].clone(), args[4].clone(), PathBuf::from(&args[5]));
+    let debug_id = debugid::DebugId::from_breakpad(&id).expect("debug id");
+    let say = |s: &str| {
+        let mut o = std::io::stdout().lock();
+        let _ = writeln!(o, "{s}");
+        let _ = o.flush();
+    };
+    let wait_line = || {
+        tokio::task::block_in_place(|| {
+            let mut line = String::new();
+            let _ = std::io::stdin().lock().read_line(&mut line);
+            line
+        })
+    };
+    let rt = tokio::runtime::Builder::new_multi_thread().worker_threads(2).max_blocking_threads(1).enable_all().build().unwrap();
+    rt.block_on(async move {
+        let a = tokio::spawn(async move {
+            let config = if site == "download" {
+                wholesym::SymbolManagerConfig::new().breakpad_symbol_server(p1, p2)
+            } else {
+                wholesym::SymbolManagerConfig::new().breakpad_symbol_dir(PathBuf::from(p1)).breakpad_symindex_cache_dir(p2)
+            };
+            let sm = wholesym::SymbolManager::with_config(config);
+            sm.load_symbol_map(&name, debug_id).await.is_ok()
+        });
+        say("STARTED");
+        wait_line();
+        let (tx, rx) = std::sync::mpsc::channel::<()>();
+        let (stx, srx) = tokio::sync::oneshot::channel::<()>();
+        let blocker = tokio::task::spawn_blocking(move || {
+            let _ = stx.send(());
+            let _ = rx.recv();
+        });
+        let _ = srx.await;
+        say("BLOCKED");
+        let t = Instant::now();
+        while !part.exists() && !a.is_finished() && t.elapsed() < Duration::from_secs(30) {
+            tokio::time::sleep(Duration::from_millis(1)).await;
+        }
+        // from open(.part) to the first poll of write_all there is no await point; leave it ample time
+        tokio::time::sleep(Duration::from_millis(250)).await;
+        a.abort();
+        let how = match a.await {
+            Err(e) if e.is_cancelled() => "cancelled",
+            Err(_) => "panicked",
+            Ok(_) => "finished",
+        };
+        let len = std::fs::metadata(&part).map(|m| m.len() as i64).unwrap_or(-1);
+        say(&format!("CANCELLED {how} {len}"));
+        wait_line();
+        let _ = tx.send(());
+        let _ = blocker.await;
+        let _ = tokio::task::spawn_blocking(|| ()).await;
+        say("DONE");
+    });
+    std::process::exit(0);
+}
+
+fn load_local(sym_dir: PathBuf, idx_dir: PathBuf, name: &str, debug_id: debugid::DebugId) -> bool {
+    let rt = tokio::runtime::Builder::new_current_thread().enable_all().build().unwrap();
+    rt.block_on(async move {
+        let config = wholesym::SymbolManagerConfig::new().breakpad_symbol_dir(sym_dir).breakpad_symindex_cache_dir(idx_dir);
+        let sm = wholesym::SymbolManager::with_config(config);
+        match sm.load_symbol_map(name, debug_id).await {
+            Ok(map) => map.lookup(wholesym::LookupAddress::Relative(0x1004)).await.is_some(),
+            Err(_) => false,
+        }
+    })
+}
+
+fn load_via_server(url: String, cache: PathBuf, name: &str, debug_id: debugid::DebugId) -> bool {
+    let rt = tokio::runtime::Builder::new_current_thread().enable_all().build().unwrap();
+    rt.block_on(async move {
+        let config = wholesym::SymbolManagerConfig::new().breakpad_symbol_server(url, cache);
+        let sm = wholesym::SymbolManager::with_config(config);
+        match sm.load_symbol_map(name, debug_id).await {
+            Ok(map) => map.lookup(wholesym::LookupAddress::Relative(0x1004)).await.is_some(),
+            Err(_) => false,
+        }
+    })
+}
+
+fn cancelwrite_download_line(fa: usize, fb: usize, seed: u64) -> String {
+    let (_, _, ta, _, tb, _) = two_versions(fa, fb, seed);
+    format!("cancelwrite site=download a={fa} b={fb} isizea={} isizeb={} seed={seed}", ta.len(), tb.len())
+}
+
+/// the `cancelwrite` scenario on the downloader call site: A's download is cancelled in `stream.read().await`
+/// (the server holds the rest of the body back) with its first `write_all` queued; B downloads another version
+fn run_cancelwrite_download(ws: &[&str], stats: &mut Stats) -> Vec<String> {
+    use std::os::fd::AsRawFd;
+    let fa = kv_num(ws, "a", 300);
+    let fb = kv_num(ws, "b", 600);
+    let seed = kv_num(ws, "seed", 1) as u64;
+    let dir = work_dir();
+    let (name, debug_id, text_a, _, text_b, _) = two_versions(fa, fb, seed);
+    if kv_num(ws, "isizea", text_a.len()) != text_a.len() || kv_num(ws, "isizeb", text_b.len()) != text_b.len() || text_a == text_b {
+        let _ = std::fs::remove_dir_all(&dir);
+        return vec!["bad-op".into()];
+    }
+    let (body_a, body_b) = (Arc::new(text_a.into_bytes()), Arc::new(text_b.into_bytes()));
+    let cache = dir.join("cache");
+    let rel = format!("{name}/{}/{name}.sym", debug_id.breakpad());
+    let dest = cache.join(&rel);
+    std::fs::create_dir_all(dest.parent().unwrap()).unwrap();
+    let part_path = with_suffix(&dest, "part");
+    let Some(server) = SymServer::start(body_a.clone(), body_a.len() / 2) else {
+        let _ = std::fs::remove_dir_all(&dir);
+        return vec!["cancelwrite err:server".into()];
+    };
+    server.hold.store(true, Ordering::SeqCst);
+    let url = format!("http://127.0.0.1:{}/", server.port);
+    let lock_file = std::fs::OpenOptions::new().write(true).create(true).truncate(false).open(with_suffix(&dest, "lock")).unwrap();
+    unsafe {
+        libc::flock(lock_file.as_raw_fd(), libc::LOCK_EX);
+    }
+    let exp = body_b.clone();
+    let observer = Observer::start(dest.clone(), move |p| match std::fs::read(p) {
+        Ok(b) => {
+            if b == *exp {
+                Class::Complete(0)
+            } else {
+                Class::Bad
+            }
+        }
+        Err(_) => Class::Absent,
+    });
+    let classify = |p: &Path| -> &'static str {
+        match std::fs::read(p) {
+            Ok(b) if b == *body_b => "complete",
+            Ok(_) => "bad",
+            Err(_) => "absent",
+        }
+    };
+    let exe = std::env::current_exe().unwrap();
+    let mut cmd = Command::new(&exe);
+    cmd.arg("--c16-cancelwrite-child").arg("download").arg(&url).arg(&cache).arg(&name).arg(debug_id.breakpad().to_string()).arg(&part_path);
+    for v in ["http_proxy", "https_proxy", "HTTP_PROXY", "HTTPS_PROXY", "all_proxy", "ALL_PROXY"] {
+        cmd.env_remove(v);
+    }
+    cmd.env("NO_PROXY", "127.0.0.1,localhost").env("no_proxy", "127.0.0.1,localhost");
+    cmd.stdin(Stdio::piped()).stdout(Stdio::piped()).stderr(Stdio::null());
+    std::os::unix::process::CommandExt::process_group(&mut cmd, 0);
+    let mut child = cmd.spawn().expect("spawn cancelwrite child");
+    CHILD_GROUPS.lock().unwrap().push(child.id());
+    let mut to_child = child.stdin.take().unwrap();
+    let mut from_child = BufReader::new(child.stdout.take().unwrap());
+    let mut expect = |word: &str| -> Option<String> {
+        let mut line = String::new();
+        loop {
+            line.clear();
+            match from_child.read_line(&mut line) {
+                Ok(0) | Err(_) => return None,
+                Ok(_) if line.starts_with(word) => return Some(line.trim().to_string()),
+                Ok(_) => {}
+            }
+        }
+    };
+    let mut how = "lost".to_string();
+    let mut part_len = "-1".to_string();
+    let (mut b_ok, mut after_b) = (false, "absent");
+    if expect("STARTED").is_some() {
+        let t = Instant::now();
+        while flock_threads_of(child.id()) == 0 && t.elapsed() < Duration::from_secs(30) {
+            std::thread::sleep(Duration::from_micros(500));
+        }
+        let _ = writeln!(to_child, "BLOCK");
+        if expect("BLOCKED").is_some() {
+            drop(lock_file);
+            if let Some(l) = expect("CANCELLED") {
+                let w: Vec<&str> = l.split_whitespace().collect();
+                how = w.get(1).unwrap_or(&"?").to_string();
+                part_len = w.get(2).unwrap_or(&"?").to_string();
+                // the file on the server is replaced; creator B downloads it in this process
+                *server.body_override.lock().unwrap() = Some(body_b.clone());
+                server.hold.store(false, Ordering::SeqCst);
+                b_ok = load_via_server(url.clone(), cache.clone(), &name, debug_id);
+                after_b = classify(&dest);
+                let _ = writeln!(to_child, "GO");
+                let _ = expect("DONE");
+            }
+        }
+    }
+    server.hold.store(false, Ordering::SeqCst);
+    let _ = child.kill();
+    let _ = child.wait();
+    let fin = classify(&dest);
+    let (n_obs, bad, _c) = observer.finish();
+    drop(server);
+    stats.add("cancelwrite_observations", n_obs);
+    stats.bump(&format!("cancelwrite_download_final_{fin}"));
+    let _ = std::fs::remove_dir_all(&dir);
+    vec![
+        format!("cancelwrite a={how} part_at_cancel={part_len}"),
+        format!("after_b lookup={} symindex={after_b}", if b_ok { "ok" } else { "err" }),
+        format!("observations bad={}", bad.min(1)),
+        format!("final symindex={fin}"),
+    ]
+}
+
+fn run_cancelwrite(ws: &[&str], stats: &mut Stats) -> Vec<String> {
+    use std::os::fd::AsRawFd;
+    if kv(ws, "site") == Some("download") {
+        return run_cancelwrite_download(ws, stats);
+    }
+    let fa = kv_num(ws, "a", 20);
+    let fb = kv_num(ws, "b", 200);
+    let seed = kv_num(ws, "seed", 1) as u64;
+    let dir = work_dir();
+    let (name, debug_id, text_a, index_a, text_b, index_b) = two_versions(fa, fb, seed);
+    if kv_num(ws, "isizea", index_a.len()) != index_a.len() || kv_num(ws, "isizeb", index_b.len()) != index_b.len() || index_a == index_b {
+        let _ = std::fs::remove_dir_all(&dir);
+        return vec!["bad-op".into()];
+    }
+    let sym_dir = dir.join("syms");
+    let idx_dir = dir.join("symindex");
+    let rel = format!("{name}/{}/{name}.sym", debug_id.breakpad());
+    let sym_path = sym_dir.join(&rel);
+    std::fs::create_dir_all(sym_path.parent().unwrap()).unwrap();
+    std::fs::write(&sym_path, &text_a).unwrap();
+    let symindex_path = idx_dir.join(&rel).with_extension("symindex");
+    std::fs::create_dir_all(symindex_path.parent().unwrap()).unwrap();
+    let part_path = with_suffix(&symindex_path, "part");
+    // the harness plays an earlier creator that holds the lock (and then gives up without creating the file)
+    let lock_file = std::fs::OpenOptions::new().write(true).create(true).truncate(false).open(with_suffix(&symindex_path, "lock")).unwrap();
+    unsafe {
+        libc::flock(lock_file.as_raw_fd(), libc::LOCK_EX);
+    }
+    let index_b = Arc::new(index_b);
+    let exp = index_b.clone();
+    let observer = Observer::start(symindex_path.clone(), move |p| match std::fs::read(p) {
+        Ok(b) => {
+            if b == *exp {
+                Class::Complete(0)
+            } else {
+                Class::Bad
+            }
+        }
+        Err(_) => Class::Absent,
+    });
+    let classify = |p: &Path| -> &'static str {
+        match std::fs::read(p) {
+            Ok(b) if b == *index_b => "complete",
+            Ok(_) => "bad",
+            Err(_) => "absent",
+        }
+    };
+    let exe = std::env::current_exe().unwrap();
+    let mut cmd = Command::new(&exe);
+    cmd.arg("--c16-cancelwrite-child").arg("symindex").arg(&sym_dir).arg(&idx_dir).arg(&name).arg(debug_id.breakpad().to_string()).arg(&part_path);
+    cmd.stdin(Stdio::piped()).stdout(Stdio::piped()).stderr(Stdio::null());
+    std::os::unix::process::CommandExt::process_group(&mut cmd, 0);
+    let mut child = cmd.spawn().expect("spawn cancelwrite child");
+    CHILD_GROUPS.lock().unwrap().push(child.id());
+    let mut to_child = child.stdin.take().unwrap();
+    let mut from_child = BufReader::new(child.stdout.take().unwrap());
+    let mut expect = |word: &str| -> Option<String> {
+        let mut line = String::new();
+        loop {
+            line.clear();
+            match from_child.read_line(&mut line) {
+                Ok(0) | Err(_) => return None,
+                Ok(_) if line.starts_with(word) => return Some(line.trim().to_string()),
+                Ok(_) => {}
+            }
+        }
+    };
+    let mut how = "lost".to_string();
+    let mut part_len = "-1".to_string();
+    let (mut b_ok, mut after_b) = (false, "absent");
+    if expect("STARTED").is_some() {
+        let t = Instant::now();
+        while flock_threads_of(child.id()) == 0 && t.elapsed() < Duration::from_secs(30) {
+            std::thread::sleep(Duration::from_micros(500));
+        }
+        let _ = writeln!(to_child, "BLOCK");
+        if expect("BLOCKED").is_some() {
+            drop(lock_file);
+            if let Some(l) = expect("CANCELLED") {
+                let w: Vec<&str> = l.split_whitespace().collect();
+                how = w.get(1).unwrap_or(&"?").to_string();
+                part_len = w.get(2).unwrap_or(&"?").to_string();
+                // creator B: another version of the module's .sym, loaded by a fresh SymbolManager in this process
+                std::fs::write(&sym_path, &text_b).unwrap();
+                b_ok = load_local(sym_dir.clone(), idx_dir.clone(), &name, debug_id);
+                after_b = classify(&symindex_path);
+                let _ = writeln!(to_child, "GO");
+                let _ = expect("DONE");
+            }
+        }
+    }
+    let _ = child.kill();
+    let _ = child.wait();
+    let fin = classify(&symindex_path);
+    let (n_obs, bad, _c) = observer.finish();
+    stats.add("cancelwrite_observations", n_obs);
+    stats.bump(&format!("cancelwrite_final_{fin}"));
+    stats.bump(if index_a.len() < index_b.len() { "cancelwrite_a_shorter" } else { "cancelwrite_a_longer" });
+    let _ = std::fs::remove_dir_all(&dir);
+    vec![
+        format!("cancelwrite a={how} part_at_cancel={part_len}"),
+        format!("after_b lookup={} symindex={after_b}", if b_ok { "ok" } else { "err" }),
+        format!("observations bad={}", bad.min(1)),
+        format!("final symindex={fin}"),
+    ]
+}
+
+// ---------------------------------------------------------------------------------------------
+// (g) waiters must not occupy the runtime's blocking pool (file_creation.rs:208-212)
+
+/// threads of `pid` that are inside flock(2) right now (x86_64: system call 73)
+fn threads_in_flock(pid: u32) -> usize {
+    let mut n = 0;
+    if let Ok(rd) = std::fs::read_dir(format!("/proc/{pid}/task")) {
+        for e in rd.flatten() {
+            if let Ok(sc) = std::fs::read_to_string(e.path().join("syscall")) {
+                if sc.split_whitespace().next() == Some("73") {
+                    n += 1;
+                }
+            }
+        }
+    }
+    n
+}
+
+/// `--c16-poolwait-child <dest> <seed> <K> <W>`: one runtime whose blocking pool has K threads. Creator 0 enters its
+/// write callback (which writes through a `tokio::fs::File`, like the real callbacks) and waits for `GO`; W more
+/// creators of the same destination then wait for the lock. If waiting for the lock used the blocking pool, the
+/// holder's write could never run.
+fn poolwait_child_main(args: &[String]) -> ! {
+    let dest = PathBuf::from(&args[0]);
+    let seed: u64 = args[1].parse().unwrap();
+    let k: usize = args[2].parse().unwrap();
+    let w: usize = args[3].parse().unwrap();
+    let say = |s: &str| {
+        let mut o = std::io::stdout().lock();
+        let _ = writeln!(o, "{s}");
+        let _ = o.flush();
+    };
+    let rt = tokio::runtime::Builder::new_multi_thread().worker_threads(2).max_blocking_threads(k).enable_all().build().unwrap();
+    rt.block_on(async move {
+        let (htx, hrx) = tokio::sync::oneshot::channel::<()>();
+        let (gtx, grx) = tokio::sync::oneshot::channel::<()>();
+        let d0 = dest.clone();
+        let holder = tokio::spawn(async move {
+            create_file_cleanly(
+                &d0,
+                |file: std::fs::File| async move {
+                    use tokio::io::AsyncWriteExt;
+                    let _ = htx.send(());
+                    let _ = grx.await;
+                    let mut f = tokio::fs::File::from_std(file);
+                    for ch in payload_chunks(seed, 0, 2) {
+                        f.write_all(&ch).await.map_err(|e| CbErr(e.to_string()))?;
+                    }
+                    f.flush().await.map_err(|e| CbErr(e.to_string()))?;
+                    Ok::<Made, CbErr>(Made::Created)
+                },
+                || async { Ok::<Made, CbErr>(Made::Existing) },
+            )
+            .await
+        });
+        let _ = hrx.await;
+        let waiters: Vec<_> = (0..w)
+            .map(|_| {
+                let d = dest.clone();
+                tokio::spawn(async move {
+                    create_file_cleanly(
+                        &d,
+                        |mut file: std::fs::File| async move {
+                            for ch in payload_chunks(seed, 1, 1) {
+                                file.write_all(&ch).map_err(|e| CbErr(e.to_string()))?;
+                            }
+                            Ok::<Made, CbErr>(Made::Created)
+                        },
+                        || async { Ok::<Made, CbErr>(Made::Existing) },
+                    )
+                    .await
+                })
+            })
+            .collect();
+        say("WAITING");
+        tokio::task::block_in_place(|| {
+            let mut line = String::new();
+            let _ = std::io::stdin().lock().read_line(&mut line);
+        });
+        let _ = gtx.send(());
+        let (mut created, mut existing, mut err) = (0, 0, 0);
+        for h in std::iter::once(holder).chain(waiters) {
+            match h.await {
+                Ok(Ok(Made::Created)) => created += 1,
+                Ok(Ok(Made::Existing)) => existing += 1,
+                _ => err += 1,
+            }
+        }
+        say(&format!("RESULT {created} {existing} {err}"));
+    });
+    std::process::exit(0);
+}
+
+fn run_poolwait(ws: &[&str], stats: &mut Stats) -> Vec<String> {
+    let k = kv_num(ws, "k", 2).max(1);
+    let w = kv_num(ws, "waiters", 3);
+    let seed = kv_num(ws, "seed", 1) as u64;
+    let dir = work_dir();
+    let dest = dir.join("cache.bin");
+    let exe = std::env::current_exe().unwrap();
+    let mut cmd = Command::new(&exe);
+    cmd.arg("--c16-poolwait-child").arg(&dest).arg(seed.to_string()).arg(k.to_string()).arg(w.to_string());
+    cmd.stdin(Stdio::piped()).stdout(Stdio::piped()).stderr(Stdio::null());
+    std::os::unix::process::CommandExt::process_group(&mut cmd, 0);
+    let mut child = cmd.spawn().expect("spawn poolwait child");
+    CHILD_GROUPS.lock().unwrap().push(child.id());
+    let mut to_child = child.stdin.take().unwrap();
+    let stdout = child.stdout.take().unwrap();
+    let (tx, rx) = std::sync::mpsc::channel::<String>();
+    std::thread::spawn(move || {
+        for l in BufReader::new(stdout).lines().map_while(Result::ok) {
+            let _ = tx.send(l);
+        }
+    });
+    let mut result: Option<(usize, usize, usize)> = None;
+    if let Ok(l) = rx.recv_timeout(Duration::from_secs(20)) {
+        if l.starts_with("WAITING") {
+            // all waiters that can wait do so: W threads in flock (the real code), or as many as the pool has
+            let t = Instant::now();
+            while threads_in_flock(child.id()) < w.min(k) && t.elapsed() < Duration::from_secs(5) {
+                std::thread::sleep(Duration::from_millis(1));
+            }
+            std::thread::sleep(Duration::from_millis(30));
+            stats.add("poolwait_threads_in_flock", threads_in_flock(child.id()) as u64);
+            let _ = writeln!(to_child, "GO");
+            if let Ok(l) = rx.recv_timeout(Duration::from_secs(8)) {
+                let v: Vec<usize> = l.split_whitespace().skip(1).filter_map(|x| x.parse().ok()).collect();
+                if l.starts_with("RESULT") && v.len() == 3 {
+                    result = Some((v[0], v[1], v[2]));
+                }
+            }
+        }
+    }
+    unsafe {
+        libc::kill(-(child.id() as i32), libc::SIGKILL);
+    }
+    let _ = child.wait();
+    let fin = final_line(&dest, seed);
+    stats.bump(&format!("poolwait_k_{k}"));
+    let _ = std::fs::remove_dir_all(&dir);
+    match result {
+        Some((c, e, r)) => vec![format!("poolwait created={c} existing={e} err={r} stuck=0"), fin],
+        None => vec![format!("poolwait created=0 existing=0 err=0 stuck={}", w + 1), fin],
+    }
+}
+
 // ---------------------------------------------------------------------------------------------
 
 pub struct C16;
@@ -1738,6 +2395,12 @@ fn download_line(what: &str, funcs: usize, tail: usize, seed: u64) -> String {
     format!("download fault={fault} funcs={funcs} tail={tail} size={size} seed={seed}")
 }
 
+#[allow(clippy::too_many_arguments)]
+fn round_line_sig(mode: &str, n: usize, late: usize, cw: usize, sig: usize, fates: &[Fate], sizes: &[usize], seed: u64) -> String {
+    format!("{} sig={sig}", round_line(mode, n, late, cw, fates, sizes, "-", 2, "-", seed))
+}
+
+#[allow(clippy::too_many_arguments)]
 fn round_line(mode: &str, n: usize, late: usize, cw: usize, fates: &[Fate], sizes: &[usize], pre: &str, presize: usize, lead: &str, seed: u64) -> String {
     let f = if fates.is_empty() { "-".to_string() } else { fates.iter().map(|f| f.show()).collect::<Vec<_>>().join(",") };
     let s = sizes.iter().map(|s| s.to_string()).collect::<Vec<_>>().join(",");
@@ -1754,7 +2417,7 @@ impl Prop for C16 {
     fn case_count(&self, tier: Tier) -> u64 {
         match tier {
             Tier::Quick => 400,
-            Tier::Thorough => 20000,
+            Tier::Thorough => 12000,
         }
     }
     fn fixed_cases(&self, tier: Tier) -> Vec<Case> {
@@ -1805,6 +2468,33 @@ impl Prop for C16 {
         // waiters cancelled while blocked in flock (threads only)
         push("threads-cancel-waiters".into(), round_line("threads", 3, 1, 2, &[], &[3], "-", 2, "-", next_seed()));
         push("threads-fail-cancel-waiters".into(), round_line("threads", 3, 0, 1, &[Fate::Fail(2)], &[3, 2], "-", 2, "-", next_seed()));
+        // futures dropped inside the existing-file handler (the third await point of create_file_cleanly)
+        push("threads-cancel-in-existing".into(), format!("{} ce=2", round_line("threads", 3, 1, 0, &[], &[2, 3], "-", 2, "-", next_seed())));
+        push("threads-allfail-cancel-in-existing".into(), format!("{} ce=2", round_line("threads", 2, 0, 0, &[Fate::Fail(1), Fate::Cancel(0)], &[2], "-", 2, "-", next_seed())));
+        // the rename of the first writer fails after a good write: a second writer must then succeed (two Ok callbacks)
+        push("procs-rename-fails".into(), round_line("procs", 3, 0, 0, &[Fate::RFail], &[2, 3], "-", 2, "renamefail:0", next_seed()));
+        push("procs-rename-fails-late".into(), round_line("procs", 4, 1, 0, &[Fate::RFail, Fate::Fail(1)], &[3, 2, 2], "-", 2, "renamefail:0", next_seed()));
+        // waiters SIGKILLed while blocked in flock; signals (EINTR) to blocked flock threads (processes only)
+        push("procs-kill-waiters".into(), round_line("procs", 3, 1, 2, &[], &[3, 2], "-", 2, "-", next_seed()));
+        push("procs-fail-kill-waiters".into(), round_line("procs", 3, 0, 1, &[Fate::Fail(1)], &[2, 3], "-", 2, "-", next_seed()));
+        push("procs-eintr".into(), round_line_sig("procs", 4, 2, 0, 3, &[], &[2, 3], next_seed()));
+        push("procs-eintr-exhausted".into(), format!("{} sigx=1", round_line_sig("procs", 4, 2, 0, 1, &[], &[2, 3], next_seed())));
+        push("procs-eintr-exhausted-2".into(), format!("{} sigx=2", round_line_sig("procs", 5, 2, 1, 0, &[Fate::Fail(1)], &[3, 2], next_seed())));
+        push("procs-eintr-kill-waiters".into(), round_line_sig("procs", 4, 1, 1, 2, &[Fate::Kill(1)], &[3, 2, 2], next_seed()));
+        // a writer whose complete payload is empty (an empty file at the final path is then a complete file)
+        for mode in ["threads", "procs"] {
+            push(format!("{mode}-empty-payload"), round_line(mode, 3, 0, 0, &[], &[0], "-", 2, "-", next_seed()));
+            push(format!("{mode}-fail-empty-payload"), round_line(mode, 4, 0, 0, &[Fate::Fail(0)], &[2, 0], "-", 2, "-", next_seed()));
+        }
+        // (g) as many waiters as the runtime's blocking pool has threads, and more, while the holder's callback needs the pool
+        push("poolwait-2-3".into(), format!("poolwait k=2 waiters=3 seed={}", next_seed()));
+        push("poolwait-1-1".into(), format!("poolwait k=1 waiters=1 seed={}", next_seed()));
+        // (f) a creator cancelled while a write of its tokio::fs::File is in flight (shorter / longer than the next one)
+        push("cancelwrite-shorter".into(), cancelwrite_line(20, 200, next_seed()));
+        push("cancelwrite-download".into(), cancelwrite_download_line(300, 700, next_seed()));
+        if tier == Tier::Thorough {
+            push("cancelwrite-longer".into(), cancelwrite_line(300, 30, next_seed()));
+        }
         // (c) the call site
         for (m, f) in [(2usize, 50usize), (6, 400)] {
             push(format!("symindex-{m}"), format!("symindex managers={m} funcs={f} seed={}", next_seed()));
@@ -1828,6 +2518,14 @@ impl Prop for C16 {
         }
         if rng.chance(1, 40) {
             return vec![symindexfault_line(*rng.pick(&[0u64, 100, 500, 900, 999, 1000]), rng.range(5, 500) as usize, seed)];
+        }
+        if tier == Tier::Thorough && rng.chance(1, 500) {
+            let (a, b) = if rng.chance(1, 2) { (rng.range(5, 60), rng.range(100, 400)) } else { (rng.range(100, 400), rng.range(5, 60)) };
+            return vec![if rng.chance(1, 2) { cancelwrite_line(a as usize, b as usize, seed) } else { cancelwrite_download_line(a as usize + 100, b as usize + 100, seed) }];
+        }
+        if rng.chance(1, 150) {
+            let k = rng.range(1, 4);
+            return vec![format!("poolwait k={k} waiters={} seed={seed}", k + rng.below(3))];
         }
         if rng.chance(1, 30) {
             let what = *rng.pick(&["none", "fsize-first", "fsize-last", "fsize-last", "fsize-lastbyte", "fsize-exact", "abort-first", "abort-last"]);
@@ -1856,21 +2554,38 @@ impl Prop for C16 {
         // late creators / cancelled waiters need an early creator that succeeds
         let room = n.saturating_sub(nf + 1);
         let late = if room > 0 && rng.chance(1, 2) { rng.range(1, room as u64) as usize } else { 0 };
-        let cw = if !procs && n > nf + late && rng.chance(1, 4) { rng.range(1, 3) as usize } else { 0 };
+        let cw = if n > nf + late && rng.chance(1, 4) { rng.range(1, 3) as usize } else { 0 };
+        let sig = if procs && late + cw > 0 && rng.chance(1, 3) { rng.range(1, 3) as usize } else { 0 };
+        // an empty payload now and then (not with a gate: the gate writer parks after its first chunk)
+        let sizes = if late + cw == 0 && rng.chance(1, 12) { let mut s = sizes; let i = rng.below(s.len() as u64) as usize; s[i] = 0; s } else { sizes };
         let mut pre = "-".to_string();
         let mut lead = "-".to_string();
         if procs && rng.chance(1, 5) {
             let p = *rng.pick(&KILL_POINTS);
             let after_rename = p == "closelock" || p == "unlinklock";
             // a first wave that leaves the destination complete must not be combined with a gate
-            if !(after_rename && late > 0) {
+            if !(after_rename && late + cw > 0) {
                 pre = format!("{p}x{}", rng.range(1, 3));
             }
         } else if procs && tier == Tier::Thorough && rng.chance(1, 10) && fates.first().map(|f| *f == Fate::Ok).unwrap_or(true) {
             lead = format!("{}:{}", rng.pick(&["openpart", "closepart", "rename", "closelock", "unlinklock"]), 20_000 * rng.range(1, 5));
         }
+        let mut fates = fates;
+        if procs && pre == "-" && lead == "-" && n > nf + 1 + late && rng.chance(1, 12) {
+            fates.insert(0, Fate::RFail);
+            lead = "renamefail:0".to_string();
+        }
         let presize = rng.range(2, 4) as usize;
-        vec![round_line(mode, n, late, cw, &fates, &sizes, &pre, presize, &lead, seed)]
+        let sigx = if procs && late > 0 && pre == "-" && lead == "-" && rng.chance(1, 5) { 1 } else { 0 };
+        if sig + sigx > 0 && pre == "-" && lead == "-" {
+            let l = round_line_sig(mode, n, late, cw, sig, &fates, &sizes, seed);
+            return vec![if sigx > 0 { format!("{l} sigx={sigx}") } else { l }];
+        }
+        let l = round_line(mode, n, late, cw, &fates, &sizes, &pre, presize, &lead, seed);
+        if !procs && rng.chance(1, 6) {
+            return vec![format!("{l} ce={}", rng.range(1, 2))];
+        }
+        vec![l]
     }
     fn execute(&self, ops: &[String], stats: &mut Stats) -> Vec<String> {
         let Some(l) = ops.first() else { return vec!["bad-op".into()] };
@@ -1903,6 +2618,8 @@ impl C16 {
             Some("symindex") => run_symindex(&ws, stats),
             Some("download") => run_download(&ws, stats),
             Some("symindexfault") => run_symindex_fault(&ws, stats),
+            Some("cancelwrite") => run_cancelwrite(&ws, stats),
+            Some("poolwait") => run_poolwait(&ws, stats),
             _ => vec!["bad-op".into()],
         }
     }
@@ -1915,6 +2632,12 @@ fn main() {
     }
     if args.get(1).map(|s| s.as_str()) == Some("--c16-download-child") {
         download_child_main(&args[2..]);
+    }
+    if args.get(1).map(|s| s.as_str()) == Some("--c16-poolwait-child") {
+        poolwait_child_main(&args[2..]);
+    }
+    if args.get(1).map(|s| s.as_str()) == Some("--c16-cancelwrite-child") {
+        cancelwrite_child_main(&args[2..]);
     }
     if args.get(1).map(|s| s.as_str()) == Some("--c16-symindex-child") {
         symindex_child_main(&args[2..]);
